@@ -163,6 +163,20 @@ pub fn run_check(prop: &str, tier: Tier) -> i32 {
             });
         }
     }
+    // coverage-guided stage (thorough tier, properties decided by the simulation model)
+    let mut fuzz_summary: Option<Value> = None;
+    let fuzz_secs: u64 = std::env::var("VERIF_FUZZ_SECS").ok().and_then(|s| s.parse().ok()).unwrap_or(if tier == Tier::Thorough { 180 } else { 0 });
+    if fuzz_secs > 0 && merged.failure.is_none() && props::FUZZ_PROPS.contains(&prop) {
+        let fo = fuzz_stage(prop, seed, fuzz_secs, &dir);
+        merged.evaluations += fo.execs;
+        for o in fo.other {
+            *merged.other_hits.entry(o).or_insert(0) += 1;
+        }
+        if merged.failure.is_none() {
+            merged.failure = fo.failure;
+        }
+        fuzz_summary = Some(fo.summary);
+    }
     let wall = t0.elapsed().as_secs_f64();
     let info = props::info(prop);
     let distinct: BTreeSet<u64> = merged.fingerprints.iter().cloned().collect();
@@ -223,6 +237,9 @@ pub fn run_check(prop: &str, tier: Tier) -> i32 {
     if let Some(r) = &replay_path {
         coverage["replay"] = json!(r);
     }
+    if let Some(f) = fuzz_summary {
+        coverage["fuzz_stage"] = f;
+    }
     let ev = json!({
         "property_id": prop,
         "tier": tier.name(),
@@ -249,6 +266,187 @@ pub fn run_check(prop: &str, tier: Tier) -> i32 {
         exit
     );
     exit
+}
+
+/// The replay input of a decoded fuzz case (same run configuration as the fuzz target).
+pub fn fuzz_input_json(case: &crate::case::Case) -> Value {
+    json!({"engine":"sim","stage":"fuzz","cfg":{"horizon":true,"drain":true,"qp_each_op":true},"case":case})
+}
+
+/// Result of the coverage-guided stage.
+pub struct FuzzOut {
+    pub summary: Value,
+    pub execs: u64,
+    pub failure: Option<Failure>,
+    pub other: Vec<String>,
+}
+
+/// Removes operations one at a time while the input still violates `prop` by `rule`.
+fn minimise_violation(prop: &str, mut input: Value, rule: &str) -> Value {
+    let still = |inp: &Value| -> bool { props::replay_input(prop, inp).map(|vs| vs.iter().any(|v| v.rule == rule && v.props.iter().any(|p| p == prop))).unwrap_or(false) };
+    let mut budget = 600;
+    loop {
+        let n = input.pointer("/case/ops").and_then(|o| o.as_array()).map(|a| a.len()).unwrap_or(0);
+        let mut progressed = false;
+        let mut i = n;
+        while i > 0 && budget > 0 {
+            i -= 1;
+            let mut cand = input.clone();
+            if let Some(ops) = cand.pointer_mut("/case/ops").and_then(|o| o.as_array_mut()) {
+                if i >= ops.len() {
+                    continue;
+                }
+                ops.remove(i);
+            }
+            budget -= 1;
+            if still(&cand) {
+                input = cand;
+                progressed = true;
+            }
+        }
+        if !progressed || budget == 0 {
+            break;
+        }
+    }
+    input
+}
+
+/// Coverage-guided stage of the thorough tier (libFuzzer through cargo-fuzz, dev profile, no
+/// sanitizer): `secs` seconds of `-fork` fuzzing of the byte-decoded operation language with
+/// the reference model as the oracle, restricted to `prop`. Every artifact is decoded,
+/// re-judged outside the fuzzer and minimised. If the fuzz binary cannot be built the stage
+/// is skipped and says so.
+pub fn fuzz_stage(prop: &str, seed: u64, secs: u64, dir: &PathBuf) -> FuzzOut {
+    let skip = |why: String| FuzzOut { summary: json!({"skipped": why}), execs: 0, failure: None, other: vec![] };
+    let fdir = verif_root().join("fuzz");
+    if !fdir.join("Cargo.toml").exists() {
+        return skip("no fuzz crate".into());
+    }
+    let build = Command::new("cargo")
+        .args(["+nightly", "fuzz", "build", "--dev", "-s", "none", "--fuzz-dir"])
+        .arg(&fdir)
+        .arg("sim_ops")
+        .env("RUSTFLAGS", "--cfg deltio_verif --cfg tokio_unstable")
+        .env("CARGO_NET_OFFLINE", "true")
+        .current_dir(&fdir)
+        .stdout(Stdio::null())
+        .stderr(Stdio::piped())
+        .output();
+    match build {
+        Ok(o) if o.status.success() => {}
+        Ok(o) => return skip(format!("cargo fuzz build failed: {}", String::from_utf8_lossy(&o.stderr).lines().rev().take(3).collect::<Vec<_>>().join(" | "))),
+        Err(e) => return skip(format!("cargo fuzz not runnable: {}", e)),
+    }
+    let bin = fdir.join("target").join("x86_64-unknown-linux-gnu").join("debug").join("sim_ops");
+    if !bin.exists() {
+        return skip("fuzz binary not found after build".into());
+    }
+    let work = fdir.join("work").join(format!("{}-{}", prop, std::process::id()));
+    let corpus = work.join("corpus");
+    let art = work.join("art");
+    let _ = std::fs::create_dir_all(&corpus);
+    let _ = std::fs::create_dir_all(&art);
+    let mut seeds = 0;
+    if let Ok(rd) = std::fs::read_dir(fdir.join("seeds")) {
+        for e in rd.flatten() {
+            if std::fs::copy(e.path(), corpus.join(e.file_name())).is_ok() {
+                seeds += 1;
+            }
+        }
+    }
+    let t0 = Instant::now();
+    let out = Command::new(&bin)
+        .arg(&corpus)
+        .arg(format!("-artifact_prefix={}/", art.display()))
+        .arg(format!("-max_total_time={}", secs))
+        .arg(format!("-seed={}", seed.wrapping_add(1) % 4_000_000_000))
+        .arg(format!("-fork={}", n_workers()))
+        .args(["-len_control=0", "-max_len=160", "-timeout=120", "-rss_limit_mb=4096"])
+        .env("VERIF_FUZZ_PROPS", prop)
+        .current_dir(&work)
+        .stdout(Stdio::null())
+        .stderr(Stdio::piped())
+        .output();
+    let log = match out {
+        Ok(o) => String::from_utf8_lossy(&o.stderr).to_string(),
+        Err(e) => return skip(format!("fuzz binary not runnable: {}", e)),
+    };
+    // last progress line of the fork-mode parent: "#<execs>: cov: <c> ft: <f> corp: <n> exec/s <r> ..."
+    let (mut execs, mut cov, mut ft, mut corp) = (0u64, 0u64, 0u64, 0u64);
+    for l in log.lines() {
+        if let Some(rest) = l.strip_prefix('#') {
+            let toks: Vec<&str> = rest.split_whitespace().collect();
+            if toks.len() > 6 && toks[1] == "cov:" {
+                execs = toks[0].trim_end_matches(':').parse().unwrap_or(execs);
+                cov = toks[2].parse().unwrap_or(cov);
+                ft = toks[4].parse().unwrap_or(ft);
+                corp = toks[6].parse().unwrap_or(corp);
+            }
+        }
+    }
+    let mut arts: Vec<PathBuf> = std::fs::read_dir(&art).map(|rd| rd.flatten().map(|e| e.path()).collect()).unwrap_or_default();
+    arts.sort();
+    let mut failure = None;
+    let mut other = Vec::new();
+    for a in &arts {
+        let bytes = match std::fs::read(a) {
+            Ok(b) => b,
+            Err(_) => continue,
+        };
+        let case = crate::fuzzdec::decode(&bytes);
+        let input = fuzz_input_json(&case);
+        if failure.is_some() {
+            // one minimised failure is reported; the other artifacts are only counted
+            continue;
+        }
+        if crashes(&input, dir, prop).is_some() {
+            let (min, why) = minimise_crash(input, dir, prop);
+            let spinning = why.starts_with("never quiescent");
+            if failure.is_none() {
+                failure = Some(Failure {
+                    rule: if spinning { "never_quiescent".into() } else { "process_abort".into() },
+                    detail: format!("(found by the fuzz stage) {}", why),
+                    engine: "sim".into(),
+                    input: min,
+                    trace: json!({"artifact": a.file_name().and_then(|n| n.to_str()).unwrap_or("")}),
+                });
+            }
+            continue;
+        }
+        match props::replay_input(prop, &input) {
+            Ok(vs) => {
+                let findings = load_findings();
+                for v in vs {
+                    if v.props.iter().any(|p| p == prop) {
+                        if match_finding(&findings, prop, &v.rule, &v.detail).is_some() {
+                            continue;
+                        }
+                        if failure.is_none() {
+                            let min = minimise_violation(prop, input.clone(), &v.rule);
+                            let detail = props::replay_input(prop, &min).ok().and_then(|vs| vs.into_iter().find(|x| x.rule == v.rule).map(|x| x.detail)).unwrap_or(v.detail.clone());
+                            failure = Some(Failure { rule: v.rule.clone(), detail: format!("(found by the fuzz stage) {}", detail), engine: "sim".into(), input: min, trace: json!(null) });
+                        }
+                    } else {
+                        other.push(format!("{}:{}", v.props.join("/"), v.rule));
+                    }
+                }
+            }
+            Err(e) => other.push(format!("artifact not replayable: {}", e)),
+        }
+    }
+    let summary = json!({
+        "engine": "libFuzzer via cargo-fuzz (dev profile, no sanitizer), target sim_ops, fork mode",
+        "oracle": "reference model restricted to this property (VERIF_FUZZ_PROPS)",
+        "seconds": t0.elapsed().as_secs_f64(),
+        "execs": execs,
+        "coverage_edges": cov,
+        "features": ft,
+        "corpus_units": corp,
+        "seed_inputs": seeds,
+        "artifacts": arts.len(),
+    });
+    let _ = std::fs::remove_dir_all(&work);
+    FuzzOut { summary, execs, failure, other }
 }
 
 pub fn run_worker_process(args: &[String]) -> i32 {
